@@ -5,7 +5,7 @@
 (* the code.  stage 2: sampled (ruleset, scene) pairs on which the constructive  *)
 (* reference result must satisfy the relation (so it is satisfiable), anchors    *)
 (* partition into cores, and rotation / rule order do not matter.                *)
-EXTENDS Detect, TLC, Randomization
+EXTENDS Detect, TLC, Randomization, SequencesExt
 CONSTANTS Samples
 VARIABLES stage, rule, R, gene, rules, scene
 vars == <<stage, rule, R, gene, rules, scene>>
@@ -57,7 +57,8 @@ RefOut(sc, rs) ==
     LET ps == RefProtos(sc, rs)
         seq == CHOOSE s \in [1..Cardinality(ps) -> ps] : \A i, j \in 1..Cardinality(ps) : i # j => s[i] # s[j]
     IN  [i \in 1..Cardinality(ps) |->
-           [rule |-> seq[i].rule, core |-> seq[i].core, defs |-> <<>>,
+           [rule |-> seq[i].rule, core |-> seq[i].core,
+            defs |-> SetToSeq(GenesInside(sc, seq[i].core) \cap AnchorSet(sc, RuleNamed(rs, seq[i].rule))),
             extent |-> Extend(RingOfScene(sc), seq[i].core, RuleNamed(rs, seq[i].rule).nbhd)]]
 (* the relation accepts the constructive reference: it is satisfiable and not contradictory *)
 RefSatisfiesRelation == stage = 2 => DetectFailed(scene, rules, RefOut(scene, rules)) = {}
